@@ -253,7 +253,7 @@ add(
     "Generated fault placement: on_trial_error injected at any point of any trial's life for every scheduler / searcher family (incl. GP "
     "single- and multi-fidelity) through the protocol driver, and failing / externally stopped jobs under the real Tuner over the scripted "
     "back-end with max_failures 0..5. Oracle: no scheduler call raises after a failure, no failed trial resumed, failed configuration not "
-    "re-suggested (also with allow_duplicates=True, where only failed configurations stay black-listed), the failed trial's own pending evaluations gone, other trials' pending evaluations / rung entries / bracket slots unchanged across on_trial_error, exactly one "
+    "re-suggested (also with allow_duplicates=True, where only failed configurations stay black-listed, and with restrict_configurations, which draws suggestions from a given list through its own code path), the failed trial's own pending evaluations gone, other trials' pending evaluations / rung entries / bracket slots unchanged across on_trial_error, exactly one "
     "on_trial_error per failed run, failure limit enforced with an error naming a failed trial. 1.4e4 histories + 640 GP + 6e3 Tuner runs quick. "
     "In addition a complete enumeration of a small scope: per model-free family, two deterministic schedules x 2 seeds x 2 worker counts, every "
     "set of <= 2 (thorough <= 3) failure placements on a (trial) x (report index over the trial's life) grid: 1.1e4 quick, 2.1e5 thorough.",
